@@ -65,6 +65,7 @@ pub fn generate(prop: &str, tier: Tier, seed: u64, run: u64) -> Trace {
             } else {
                 match (run - canon) % 4 {
                     0 => crate::gen_sixel::gen_c14_direct(&mut rng, thorough),
+                    1 if (run - canon) % 8 == 1 => crate::gen_sixel::gen_c14_load(&mut rng, thorough),
                     _ => crate::gen_sixel::gen_c14(&mut rng, run, thorough),
                 }
             }
@@ -92,6 +93,7 @@ pub fn execute(trace: &Trace) -> Outcome {
     let mut out = match trace.scenario.as_str() {
         "term" => crate::term::run_term(trace),
         "sixel_direct" => run_sixel_direct(trace),
+        "load" if trace.property == "C14" => crate::exec_load::run_c14_load(trace),
         "load" => crate::exec_load::run_load(trace),
         "edit" => crate::edit::run_edit(trace),
         "pal" => crate::pal::run_pal(trace),
